@@ -37,6 +37,10 @@ pub struct LinkSpec {
     /// true: `speed_set: Some(sets[0])`; false: `speed_sets` map of all `sets`
     pub single: bool,
     pub sets: Vec<SetSpec>,
+    /// optional coordinates on the heading points: 0 none, 1 latitude and longitude, 2 longitude
+    /// only, 3 latitude only
+    #[serde(default)]
+    pub coords: u8,
 }
 
 #[derive(Serialize, Deserialize, Clone, Debug, PartialEq)]
@@ -173,7 +177,13 @@ pub fn build_chain(links: &[LinkSpec]) -> Vec<Link> {
             headings: l
                 .headings
                 .iter()
-                .map(|(o, h)| Heading { offset: uc::M * *o, heading: uc::RAD * *h, lat: None, lon: None })
+                .map(|(o, h)| Heading {
+                    offset: uc::M * *o,
+                    heading: uc::RAD * *h,
+                    // five decimals: short enough to survive JSON text exactly
+                    lat: if l.coords == 1 || l.coords == 3 { Some(((47.5 + *o * 1.0e-5) * 1.0e5).round() / 1.0e5) } else { None },
+                    lon: if l.coords == 1 || l.coords == 2 { Some(((-92.5 - *o * 1.3e-5) * 1.0e5).round() / 1.0e5) } else { None },
+                })
                 .collect(),
             speed_sets,
             speed_set,
@@ -380,7 +390,8 @@ pub fn gen_link(g: &mut Gen, tp: &TrainParamSpec, elev0: f64, o: &ChainOpts) -> 
             sets.push(gen_set(g, length, tp, t, o));
         }
     }
-    LinkSpec { length, elevs, headings, cats, single, sets }
+    let coords = if headings.is_empty() { 0 } else { g.weighted(&[6, 2, 1, 1]) as u8 };
+    LinkSpec { length, elevs, headings, cats, single, sets, coords }
 }
 
 pub fn gen_chain(g: &mut Gen, tp: &TrainParamSpec, o: &ChainOpts) -> Vec<LinkSpec> {
